@@ -282,21 +282,28 @@ enum WSt {
 struct Spec {
     flag: bool,
     w: Vec<WSt>,
-    /// two-phase diagnosis only: pending "release all" phases of manual set calls, by thread
-    pending_release: Vec<bool>,
+    /// diagnosis only: the remaining internal steps of a manual set() call, by thread:
+    /// 0 = none, 1 = flag raised (next: release, or in the three-step model the snapshot of the
+    /// registered waiters), 2 = snapshot taken (next: release of the snapshot)
+    pending_release: Vec<u8>,
+    /// three-step diagnosis only: the waiters captured by the snapshot step, by thread (bit mask)
+    snap: Vec<u32>,
 }
 
 /// All spec states reachable by applying `call` (with its observed result) to `s`; empty = the
 /// call's result is impossible here.
-fn apply(manual: bool, two_phase: bool, thread: usize, s: &Spec, call: &Call) -> Vec<Spec> {
+/// `steps`: 0 = every call is atomic (the specification); 2 / 3 = diagnosis models in which a
+/// manual set() is [raise flag] [release the registered waiters] resp. [raise flag] [snapshot the
+/// registered waiters (advance_generation)] [release the snapshot], other calls interleaving.
+fn apply(manual: bool, steps: u8, thread: usize, s: &Spec, call: &Call) -> Vec<Spec> {
     let mut out = Vec::new();
     match *call {
         Call::Set => {
             if manual {
                 let mut n = s.clone();
                 n.flag = true;
-                if two_phase {
-                    n.pending_release[thread] = true;
+                if steps != 0 {
+                    n.pending_release[thread] = 1;
                 } else {
                     for st in &mut n.w {
                         if *st == WSt::Registered {
@@ -383,33 +390,63 @@ fn apply(manual: bool, two_phase: bool, thread: usize, s: &Spec, call: &Call) ->
     out
 }
 
-fn release_phase(s: &Spec, thread: usize) -> Spec {
+/// Runs the next internal step of thread `thread`'s pending manual set().
+fn next_step(s: &Spec, thread: usize, steps: u8) -> Spec {
     let mut n = s.clone();
-    n.pending_release[thread] = false;
-    for st in &mut n.w {
-        if *st == WSt::Registered {
-            *st = WSt::Released;
+    match (n.pending_release[thread], steps) {
+        (1, 3) => {
+            n.snap[thread] = (0..n.w.len()).filter(|&i| n.w[i] == WSt::Registered).fold(0, |m, i| m | 1 << i);
+            n.pending_release[thread] = 2;
         }
+        (1, _) => {
+            n.pending_release[thread] = 0;
+            for st in &mut n.w {
+                if *st == WSt::Registered {
+                    *st = WSt::Released;
+                }
+            }
+        }
+        (2, _) => {
+            n.pending_release[thread] = 0;
+            for i in 0..n.w.len() {
+                // a waiter that was re-polled in between keeps its generation; one that was
+                // dropped is no longer in the set
+                if n.snap[thread] >> i & 1 == 1 && n.w[i] == WSt::Registered {
+                    n.w[i] = WSt::Released;
+                }
+            }
+            n.snap[thread] = 0;
+        }
+        _ => {}
+    }
+    n
+}
+
+/// Runs all remaining internal steps of thread `thread`'s pending set() (set() returns).
+fn release_phase(s: &Spec, thread: usize, steps: u8) -> Spec {
+    let mut n = s.clone();
+    while n.pending_release[thread] != 0 {
+        n = next_step(&n, thread, steps);
     }
     n
 }
 
 /// Is there a sequential order of all calls that respects: pre < everything, per-thread program
 /// order, everything < post, and is accepted by the spec?
-fn linearizable(manual: bool, two_phase: bool, nwaiters: usize, pre: &[Call], threads: &[Vec<Call>], post: &[Call]) -> bool {
+fn linearizable(manual: bool, steps: u8, nwaiters: usize, pre: &[Call], threads: &[Vec<Call>], post: &[Call]) -> bool {
     let nth = threads.len() + 1; // last index = main (pre/post)
     let main = threads.len();
-    let mut init = vec![Spec { flag: false, w: vec![WSt::Idle; nwaiters], pending_release: vec![false; nth] }];
+    let mut init = vec![Spec { flag: false, w: vec![WSt::Idle; nwaiters], pending_release: vec![0; nth], snap: vec![0; nth] }];
     for c in pre {
         let mut next = Vec::new();
         for s in &init {
             // A pending release phase of main's own earlier set must run before main's next call.
-            let s = if s.pending_release[main] { release_phase(s, main) } else { s.clone() };
-            next.extend(apply(manual, two_phase, main, &s, c));
+            let s = release_phase(s, main, steps);
+            next.extend(apply(manual, steps, main, &s, c));
         }
         init = next;
     }
-    let init: Vec<Spec> = init.into_iter().map(|s| if s.pending_release[main] { release_phase(&s, main) } else { s }).collect();
+    let init: Vec<Spec> = init.into_iter().map(|s| release_phase(&s, main, steps)).collect();
     // DFS over (positions, spec state) with memoisation.
     let mut seen: BTreeSet<(Vec<usize>, Spec)> = BTreeSet::new();
     let mut stack: Vec<(Vec<usize>, Spec)> = init.into_iter().map(|s| (vec![0; threads.len()], s)).collect();
@@ -421,15 +458,13 @@ fn linearizable(manual: bool, two_phase: bool, nwaiters: usize, pre: &[Call], th
             // All thread calls placed; remaining release phases run now (set() has returned).
             let mut s = s;
             for t in 0..nth {
-                if s.pending_release[t] {
-                    s = release_phase(&s, t);
-                }
+                s = release_phase(&s, t, steps);
             }
             let mut cur = vec![s];
             for c in post {
                 let mut next = Vec::new();
                 for s in &cur {
-                    next.extend(apply(manual, false, main, s, c));
+                    next.extend(apply(manual, 0, main, s, c));
                 }
                 cur = next;
                 if cur.is_empty() {
@@ -442,16 +477,16 @@ fn linearizable(manual: bool, two_phase: bool, nwaiters: usize, pre: &[Call], th
             continue;
         }
         for t in 0..threads.len() {
-            // Option A (two-phase only): run thread t's pending release phase now.
-            if s.pending_release[t] {
-                stack.push((pos.clone(), release_phase(&s, t)));
+            // Option A (diagnosis models only): run the next internal step of t's pending set().
+            if s.pending_release[t] != 0 {
+                stack.push((pos.clone(), next_step(&s, t, steps)));
             }
             if pos[t] < threads[t].len() {
-                // The release phase of t's earlier set must precede t's next call.
-                if s.pending_release[t] {
+                // All steps of t's earlier set must precede t's next call.
+                if s.pending_release[t] != 0 {
                     continue;
                 }
-                for n in apply(manual, two_phase, t, &s, &threads[t][pos[t]]) {
+                for n in apply(manual, steps, t, &s, &threads[t][pos[t]]) {
                     let mut p = pos.clone();
                     p[t] += 1;
                     stack.push((p, n));
@@ -624,9 +659,12 @@ fn execute(prog: &Program) -> String {
     }
 
     let summary = format!("pre={pre_hist:?} threads={thread_hists:?} post={post:?}");
-    if !linearizable(prog.manual, false, nwaiters, &pre_hist, &thread_hists, &post) {
-        if prog.manual && linearizable(true, true, nwaiters, &pre_hist, &thread_hists, &post) {
+    if !linearizable(prog.manual, 0, nwaiters, &pre_hist, &thread_hists, &post) {
+        if prog.manual && linearizable(true, 2, nwaiters, &pre_hist, &thread_hists, &post) {
             oracle("manual-set-not-atomic", format!("history is not linearizable, but is explained by set() = [raise flag] ... [release registered waiters] as two separate steps: {summary}"));
+        }
+        if prog.manual && linearizable(true, 3, nwaiters, &pre_hist, &thread_hists, &post) {
+            oracle("manual-set-not-atomic:late-registrant-skipped", format!("history is not linearizable, not even with set() split in two, but is explained by set() = [raise flag] ... [advance_generation: choose the waiters registered so far] ... [release the chosen waiters] as three separate steps (a waiter that registers between the last two is skipped although it registered before set() returned and before an earlier-registered waiter was released): {summary}"));
         }
         oracle("nonlinearizable", format!("no sequential order of the calls explains: {summary}"));
     }
@@ -774,6 +812,15 @@ fn generate(thorough: bool) -> Vec<Program> {
             }
         }
     }
+    if !thorough {
+        // Witness programs of findings that only the thorough family reaches: kept in the quick
+        // tier so that the finding (and its classification) is re-observed on every change.
+        for name in ["manual:boxed:pre:S,RpP"] {
+            if !out.iter().any(|p: &Program| p.name() == name) {
+                out.push(Program::parse(name));
+            }
+        }
+    }
     out
 }
 
@@ -848,7 +895,7 @@ fn main() {
             let kind = classify(msg);
             // The known non-atomicity of manual set() is one witness class regardless of the
             // program that exhibits it; everything else is keyed by its program shape.
-            let key = if kind == "manual-set-not-atomic" { kind.clone() } else { format!("{kind}:{}", prog.shape()) };
+            let key = if kind.starts_with("manual-set-not-atomic") { kind.clone() } else { format!("{kind}:{}", prog.shape()) };
             c.violation(&key, &format!("{name}: {msg}"), json!({"program": name, "bound": bound, "message": msg}));
             continue;
         }
